@@ -1088,10 +1088,18 @@ func compareSemanticallyEquivalentTypes(newType, oldType *SimpleType, context *E
 	}
 
 	typeArgDefinitionChanged := false
-	if len(newType.TypeArguments) > 0 || len(oldType.TypeArguments) > 0 {
-		// Resolve both definitions to their base definitions then compare their TypeArguments
-		newTypeArgs := getBaseDefinition(newDef).GetDefinitionMeta().TypeArguments
-		oldTypeArgs := getBaseDefinition(oldDef).GetDefinitionMeta().TypeArguments
+	// Resolve both definitions to their base definitions then compare their TypeArguments. Closed aliases
+	// (`ImageFloat: Image<float>`) carry no TypeArguments themselves, their base definitions do.
+	baseTypeArguments := func(def TypeDefinition) []Type {
+		switch def.(type) {
+		case PrimitiveDefinition, *GenericTypeParameter:
+			return nil
+		}
+		return getBaseDefinition(def).GetDefinitionMeta().TypeArguments
+	}
+	newTypeArgs := baseTypeArguments(newDef)
+	oldTypeArgs := baseTypeArguments(oldDef)
+	if len(newType.TypeArguments) > 0 || len(oldType.TypeArguments) > 0 || len(newTypeArgs) > 0 || len(oldTypeArgs) > 0 {
 		if len(newTypeArgs) == 0 && len(oldTypeArgs) == 0 {
 			// The base definitions are not generic although the types have TypeArguments, e.g. `Alias<T>: T` resolves
 			// to its TypeArgument. There are no TypeArguments left to compare, so compare what the types resolve to
